@@ -241,6 +241,46 @@ def run(ctx):
                    what="%s does not carry property values as Value itself" % ty.split("::")[-1], where=P.adts[ty]["file"])
     serde_complete(ctx, P, "R5b", list(need) + ["grafeo_engine::database::SnapshotEdge"])
 
+    # ---- R7 JSON for the C binding: value_to_json writes each Value variant as a JSON shape from which json_to_value can
+    # build that variant again (the reader's table, per JSON shape, contains the variant the writer used that shape for)
+    JS = ["Null", "Bool", "Number", "String", "Array", "Object"]
+    vj, jv = P.fn("grafeo_c::types::value_to_json"), P.fn("grafeo_c::types::json_to_value")
+    wx, rx = FlowCx(P, vj), FlowCx(P, jv)
+    wrote = {}
+    for bi, b in enumerate(vj.blocks):
+        if b["cl"]:
+            continue
+        vs = [x[2] for x in wx.facts_at(bi) if x[0] == "variant" and x[1] == VAL]
+        if len(vs) != 1:
+            continue
+        for st in b["s"]:
+            if st[0] == [0] and st[1][0] == "agg" and st[1][2] == "serde_json::value::Value":
+                wrote.setdefault(vs[0], set()).add(st[1][3])
+        t = b["t"]
+        if t["k"] == "call" and t["dst"] == [0]:
+            wrote.setdefault(vs[0], set()).add("Number")      # json!(number): to_value(..).unwrap()
+    back = {}
+    for bi, b in enumerate(jv.blocks):
+        if b["cl"]:
+            continue
+        js = [x[2] for x in rx.facts_at(bi) if x[0] == "variant" and x[1] == "serde_json::value::Value"]
+        if len(js) != 1:
+            continue
+        shape = JS[int(js[0])] if str(js[0]).isdigit() and int(js[0]) < len(JS) else str(js[0])
+        for st in b["s"]:
+            if st[0] == [0] and st[1][0] == "agg" and st[1][2] == VAL:
+                back.setdefault(shape, set()).add(st[1][3])
+    variants = [v["name"] for v in P.adts[VAL]["variants"]]
+    ctx.floor("R7", len(wrote), len(variants), "Value variants with a JSON shape in value_to_json")
+    ctx.floor("R7", len(back), 5, "JSON shapes handled by json_to_value")
+    for v in variants:
+        shapes = wrote.get(v, set())
+        ok = len(shapes) == 1 and v in back.get(next(iter(shapes)), set())
+        ctx.ob("R7", "json#%s" % v, ok,
+               what="C binding: Value::%s is written as JSON %s, which json_to_value reads back as %s: the value changes type on "
+                    "the way through JSON" % (v, sorted(shapes), sorted(set().union(*[back.get(s_, set()) for s_ in shapes])) if shapes else []),
+               where=vj.loc())
+
 
 def _array_first_const(fn, op):
     """if op is (a reference to) an array literal whose first element is an integer constant, return it"""
